@@ -37,6 +37,7 @@ HFILES = {
     'encoder': ('encoder', 'verif_h', [], False),
     'encoder_rmi': ('encoder', 'verif_h_rmi', [], True),
     'decoder': ('decoder', 'verif_h', ['vlq'], False),
+    'decoder_idx': ('decoder', 'verif_h_idx', [], True),
     'decoder_seg': ('decoder', 'verif_h_seg', ['vlq', 'decoder'], True),
     'decoder_line': ('decoder', 'verif_h_line', ['vlq', 'decoder'], True),
     'sourceview': ('sourceview', 'verif_h', [], False),
